@@ -71,6 +71,15 @@ Proof.
   destruct (run (cd_put d name v) w o) as [[[r w'] o'] tr]. intros Hok. destruct (H Hok) as [H1|(H1 & _)]; auto.
 Qed.
 
+Theorem C04_touch_reports_presence_truthfully : forall d name f0 w o,
+  plainp (cd_base d) = true -> valid_name name = true ->
+  (forall i, name_of f0 (cd_base d ++ [name]) = Some i -> resolve f0 (cd_base d ++ [name]) = inl (cd_base d ++ [name]) /\ inode_of f0 i <> None) ->
+  w_fs w = f0 -> o_fault o = None -> names_plain f0 ->
+  let '(r, w', _, _) := run (cd_touch d name) w o in
+  (forall x, name_of (w_fs w') x = name_of f0 x) /\
+  (r = Ok true -> name_of f0 (cd_base d ++ [name]) <> None) /\ (r = Ok false -> name_of f0 (cd_base d ++ [name]) = None).
+Proof. intros d name f0 w o Hb Hn Hr. exact (plain_touch_truthful d name Hb Hn f0 Hr w o). Qed.
+
 (** On every sequential run of put: no rename in the trace. *)
 Theorem C04_put_trace_has_no_rename : forall cfg k v w o,
   let '(_, _, _, tr) := run (cache_put cfg k v) w o in
